@@ -514,6 +514,15 @@ spif_socket_send(spif_socket_t self, spif_str_t data)
                 return FALSE;
                 break;
         }
+    } else if ((size_t) num_written < len) {
+        /* Short write:  the kernel took only part of the data.  Send the rest. */
+        spif_bool_t b;
+        spif_str_t rest;
+
+        rest = spif_str_new_from_ptr(SPIF_CHARPTR(SPIF_STR_STR(data)) + num_written);
+        b = spif_socket_send(self, rest);
+        spif_str_del(rest);
+        return b;
     }
     return TRUE;
 }
